@@ -29,9 +29,10 @@ from zope.interface import implementer
 
 STREAMS = ['lines-exhaustive', 'lines-random', 'lines-malformed', 'cookie-env', 'handshake-spec-server']
 THEOREMS = ['begin_only_after_ok', 'begin_only_after_ok_of_current_mechanism', 'authenticated_iff_begin',
-            'mechanisms_once_in_order', 'no_stall', 'no_stall_run',
+            'mechanisms_once_in_order', 'moves_on_after_rejected_or_error', 'no_stall', 'no_stall_run',
+            'no_complete_line_buffered', 'framing_independent_of_reads', 'line_delivered_in_pieces',
             'exhaustion_closes', 'unknown_line_closes', 'silent_after_close',
-            'completes_against_spec_server']
+            'completes_against_spec_server', 'completes_against_spec_server_bytes', 'handlerWords_table']
 TRUSTED_BASE = [
     'bytes.split/strip, binascii.hexlify/unhexlify, getattr dispatch on "_auth_"+cmd (mirrored by hand; validated by the streams)',
     'hashlib.sha1 (model: parameter; driver: Lean SHA-1 validated by the cookie streams), os.urandom, getpass, os.stat, open: explicit inputs',
@@ -39,12 +40,17 @@ TRUSTED_BASE = [
     'Auth/SpecServerRef.lean: the reference server is a transcription of the DBus specification server states',
 ]
 ASSUMPTIONS = [
-    'server command words that are not valid UTF-8 raise UnicodeDecodeError instead of DBusAuthenticationFailed; '
-    'both end the connection and are one outcome in model and oracle',
+    'any exception escaping dataReceived (e.g. UnicodeDecodeError for a command word that is not UTF-8) makes Twisted '
+    'drop the connection: it counts as "closes" in model and oracle; its type is recorded in the distribution',
     'the user name is ASCII and getpass.getuser() succeeds',
-    'cookie context names in generated challenges are plain file names (no "/", no NUL) or non-ASCII',
+    'cookie context names: every kind is generated (absolute, "..", with "/", "\\", ".", non-ASCII); the harness never '
+    'opens a path outside its scratch keyrings (txdbus.authentication.open is guarded); files inside are regular files, '
+    'so reading them terminates (Env.file is total in the model)',
     'completion for the DBUS_COOKIE_SHA1-only server requires a usable keyring (0700-like directory owned by the user, cookie present)',
-    '"valid hexadecimal GUID" = non-empty even-length hex after bytes.strip(); the length of the GUID is not checked by the code nor demanded',
+    '"valid hexadecimal GUID" = the first argument of OK is a non-empty even number of hex digits; its length is not '
+    'demanded (reference servers send 32 digits)',
+    'the oracle is silent where the statement is: a last line before closing, skipped mechanisms (order-preserving '
+    'selection without repetition), loseConnection called more than once are accepted',
 ]
 RULE = ('a case = (transport kind, keyring environment, list of reads); distinct = distinct canonical JSON; '
         'non-trivial = at least one server line reaches handleAuthMessage')
@@ -718,7 +724,9 @@ def exhaustive_cases(world, envs, depth, alphabet, env='good', kinds=(False, Tru
 # --------------------------------------------------------------------------------------------
 # reference server of the harness (Python; written from the DBus specification)
 class RefServer:
-    def __init__(self, accepts, fd_agree, guid_hex, ctxname, cid, cookie, challenge):
+    def __init__(self, accepts, fd_agree, guid_hex, ctxname, cid, cookie, challenge, twist=None):
+        self.twist = twist
+        self.took_back = False
         self.accepts = [m for m in (b'EXTERNAL', b'DBUS_COOKIE_SHA1', b'ANONYMOUS') if m in accepts]
         self.fd_agree, self.guid_hex = fd_agree, guid_hex
         self.ctxname, self.cid, self.cookie, self.challenge = ctxname, cid, cookie, challenge
@@ -742,6 +750,8 @@ class RefServer:
             if cmd == b'AUTH':
                 toks = args.split()
                 if not toks or toks[0] not in self.accepts:
+                    if self.twist == 'error-for-unsupported' and toks:
+                        return [b'ERROR "mechanism not supported"']
                     return self.rejected()
                 resp = None
                 if len(toks) > 1:
@@ -792,6 +802,9 @@ class RefServer:
             self.state = 'Authenticated'
             return []
         if cmd == b'NEGOTIATE_UNIX_FD':
+            if self.twist == 'takes-first-ok-back' and not self.took_back:
+                self.took_back = True
+                return self.rejected()
             return [b'AGREE_UNIX_FD' if self.fd_agree else b'ERROR']
         if cmd in (b'CANCEL', b'ERROR'):
             return self.rejected()
@@ -814,10 +827,10 @@ def deliveries(maxlen):
     return ds
 
 
-def spec_handshake(world, envs, cfg, deliver=None):
+def spec_handshake(world, envs, cfg, deliver=None, twist=None):
     """Real client against the Python reference server.  Returns (transcript, session, server).
     deliver: how one server answer (with its CRLF) is cut into reads; None = one read per round."""
-    srv = RefServer(set(cfg['accepts']), cfg['fd_agree'], **SRV)
+    srv = RefServer(set(cfg['accepts']), cfg['fd_agree'], twist=twist, **SRV)
     s = Session(world, cfg['unix'], envs[cfg['env']])
     transcript = []
     done = 0   # client lines already delivered
@@ -874,6 +887,31 @@ def expected_complete(cfg, envs):
     acc = set(cfg['accepts'])
     return (b'EXTERNAL' in acc or b'ANONYMOUS' in acc
             or (b'DBUS_COOKIE_SHA1' in acc and envs[cfg['env']].usable and b'ctxa' in envs[cfg['env']].files))
+
+
+def run_partner_handshakes(ctx, world, envs):
+    """The reference server with two twists a server is free to show: (a) a mechanism it does not accept is
+    answered with ERROR instead of REJECTED; (b) on a UNIX transport the first OK is taken back (REJECTED in
+    answer to NEGOTIATE_UNIX_FD) and the next accepted mechanism goes through.  Judged by the monitors
+    ("moves on after REJECTED or ERROR" above all); completion is recorded."""
+    for r in range(1, 4):
+        for acc in itertools.combinations(MECHS, r):
+            for unix in (False, True):
+                for fd in (False, True):
+                    for twist in ('error-for-unsupported', 'takes-first-ok-back'):
+                        cfg = {'accepts': list(acc), 'unix': unix, 'fd_agree': fd, 'env': 'good'}
+                        shown = {'accepts': [a.decode() for a in acc], 'unix': unix, 'fd_agree': fd, 'env': 'good',
+                                 'twist': twist}
+                        transcript, s, srv = spec_handshake(world, envs, cfg, twist=twist)
+                        evs, early = s.events()
+                        done = bool(s.p._authenticated) and srv.state == 'Authenticated'
+                        ctx.case('handshake-partners', sample=shown)
+                        ctx.impl_trace()
+                        ctx.stat('hs-%s:%s' % (twist, 'complete' if done else 'incomplete'))
+                        for key, what in monitor(world, unix, evs, early):
+                            ctx.violation(key, what + ' (partner: reference server, %s)' % twist,
+                                          inp=dict(shown, kind='partner'), observed=' '.join(transcript),
+                                          expected='see the property statement of C07')
 
 
 def run_spec_handshakes(ctx, world, envs):
@@ -996,7 +1034,8 @@ def run_real_bus(ctx, world, envs, tmp):
 
                 base_done, longest = one_real_bus(ctx, world, envs, Srv, FakeSocket, FakeFactory, acc, unix,
                                                   'whole', None, None)
-                for dname, deliver in deliveries(longest):
+                # (the bus's cookie challenge contains its pid: a fixed bound keeps the case count deterministic)
+                for dname, deliver in deliveries(max(160, longest) if longest <= 160 else longest):
                     if dname != 'whole':
                         one_real_bus(ctx, world, envs, Srv, FakeSocket, FakeFactory, acc, unix, dname, deliver,
                                      base_done)
@@ -1142,7 +1181,7 @@ def _run(ctx, world, envs, tmp):
     for name, data in ctx.corpus():
         inp = data.get('input', data)
         if inp.get('kind', 'run') == 'run' and inp.get('env') in envs:
-            corpus_cases.append({'unix': inp['unix'], 'env': inp['env'], 'chunks': inp['chunks']})
+            corpus_cases.append({k: inp[k] for k in ('unix', 'env', 'chunks', 'pref') if k in inp})
         elif inp.get('kind') == 'hs' and inp.get('env') in envs:
             cfg = dict(inp, accepts=[a.encode() for a in inp['accepts']])
             shown = {k: inp[k] for k in ('accepts', 'unix', 'fd_agree', 'env')}
@@ -1161,6 +1200,17 @@ def _run(ctx, world, envs, tmp):
     cases = exhaustive_cases(world, envs, depth, BASE_ALPHABET)
     batch(ctx, world, 'lines-exhaustive', cases, envs)
     ctx.exhaustive = True
+    # 1b. the same in an environment without keyring (the cookie step fails differently), one level less
+    batch(ctx, world, 'lines-exhaustive', exhaustive_cases(world, envs, depth - 1, BASE_ALPHABET, env='nodir'), envs)
+    # 1c. long conversations over the forms that keep the connection open: reaches the negotiation of the
+    #     second and third mechanism (OK, REJECTED, OK, REJECTED, OK, ERROR|AGREE ...)
+    deep = [b'REJECTED', b'ERROR', b'DATA', b'OK 6abbe624c672777bd87ab46e00027706', b'AGREE_UNIX_FD']
+    batch(ctx, world, 'lines-exhaustive', exhaustive_cases(world, envs, depth + 2, deep), envs)
+    # 1d. other preference lists (`preference` is a documented extension point), incl. unknown mechanism names
+    for pref in ([b'ANONYMOUS'], [b'X-TEST', b'ANONYMOUS'],
+                 [b'DBUS_COOKIE_SHA1', b'X-TEST', b'EXTERNAL', b'ANONYMOUS']):
+        batch(ctx, world, 'lines-exhaustive',
+              exhaustive_cases(world, envs, depth - 1, BASE_ALPHABET, pref=pref), envs)
     ctx.note('lines-exhaustive: every sequence of up to %d lines over %d line classes, both transport kinds '
              '(not extended after close/authentication)' % (depth, len(BASE_ALPHABET)))
     # the same sequences under random splittings (a sample)
@@ -1169,13 +1219,31 @@ def _run(ctx, world, envs, tmp):
     resplit = []
     for c in sample:
         data = b''.join(unhx(x) for x in c['chunks'])
-        resplit.append(mk_case(c['unix'], 'good', chunkings(rng, data, 1)[0]))
+        resplit.append(mk_case(c['unix'], c['env'], chunkings(rng, data, 1)[0], case_pref(c)))
     batch(ctx, world, 'lines-random', resplit, envs)
 
     # 2. random longer conversations over the rich alphabet, random environments, random reads
     n = ctx.scale(quick=16000, thorough=200000)
+    # every `_auth_<WORD>` handler of the class is a word of the alphabet (a sixth handler would be found)
+    extra = []
+    for w in world.handler_words:
+        for form in (w, w + b' 1234', w + b' ' + cookie_payload()):
+            if form not in RICH_ALPHABET:
+                extra.append(form)
+    alphabet = RICH_ALPHABET + extra
+    ctx.note('handler words found in the class: %s' % b' '.join(world.handler_words).decode('ascii', 'replace'))
     batch(ctx, world, 'lines-random',
-          [random_lines_case(rng, envs, RICH_ALPHABET, 12, env_names) for _ in range(n)], envs)
+          [random_lines_case(rng, envs, alphabet, 12, env_names) for _ in range(n)], envs)
+    # each word of the alphabet in every state of a short conversation (first, second, third mechanism,
+    # pending negotiation), both transports: the rich forms do not depend on luck
+    states = [[], [b'REJECTED'], [b'ERROR', b'REJECTED'], [b'OK 6abbe624c672777bd87ab46e00027706'],
+              [b'REJECTED', b'OK 1234'], [b'OK 1234', b'REJECTED'], [b'REJECTED', b'REJECTED', b'DATA']]
+    each = []
+    for pre in states:
+        for w in alphabet:
+            for unix in (False, True):
+                each.append(mk_case(unix, 'good', [b''.join(l + CRLF for l in pre + [w, b'REJECTED'])]))
+    batch(ctx, world, 'lines-random', each, envs)
 
     # 3. malformed: bytes outside UTF-8, lines around the 16 KiB limit, lone CR / LF, garbage
     n = ctx.scale(quick=1200, thorough=10000)
@@ -1221,6 +1289,9 @@ def _run(ctx, world, envs, tmp):
     # 6. full handshakes against the real bus authenticator (implementation only)
     run_real_bus(ctx, world, envs, tmp)
 
+    # 7. partners that answer ERROR instead of REJECTED, or take an OK back (implementation only)
+    run_partner_handshakes(ctx, world, envs)
+
 
 def replay(ctx, data):
     tmp = tempfile.mkdtemp(prefix='verif-c07-')
@@ -1231,7 +1302,7 @@ def replay(ctx, data):
         inp = data.get('input', data)
         kind = inp.get('kind', 'run')
         if kind == 'run':
-            case = {'unix': inp['unix'], 'env': inp['env'], 'chunks': inp['chunks']}
+            case = {k: inp[k] for k in ('unix', 'env', 'chunks', 'pref') if k in inp}
             m = ctx.model([driver_line(case, envs)])
             judge(ctx, world, 'replay', case, envs, m[0] if m else None)
         elif kind == 'hs':
